@@ -310,6 +310,11 @@ func descDepth(v ssa.Value, depth int) string {
 			}
 			return descDepth(ta, depth)
 		}
+		if call, ok := x.Tuple.(*ssa.Call); ok && !isErrorType(x.Type()) {
+			if s, ok := retExpr(call, x.Index, depth); ok {
+				return s
+			}
+		}
 		suffix := fmt.Sprintf("#%d", x.Index)
 		if isErrorType(x.Type()) {
 			suffix = "#err"
@@ -319,6 +324,11 @@ func descDepth(v ssa.Value, depth int) string {
 		name := calleeName(x)
 		if name == "builtin:len" && len(x.Call.Args) == 1 {
 			return "len(" + descDepth(x.Call.Args[0], depth) + ")"
+		}
+		if _, isTuple := x.Type().(*types.Tuple); !isTuple && !isErrorType(x.Type()) {
+			if s, ok := retExpr(x, 0, depth); ok {
+				return s
+			}
 		}
 		var args []string
 		for _, a := range callArgs(x) {
@@ -538,11 +548,63 @@ func condLabel(cond ssa.Value, want bool) string {
 			}
 			return "FALSE"
 		}
+	case *ssa.Phi:
+		// the value of a short-circuit expression (`a && b`, `a || b`): it evaluates to `want` through one of its edges —
+		// a constant edge stands for the branch fact that selected it, a value edge for the fact of that value
+		if l, ok := phiCondLabel(x, want, 0); ok {
+			return l
+		}
 	}
 	if want {
 		return "T(" + desc(cond) + ")"
 	}
 	return "F(" + desc(cond) + ")"
+}
+
+func phiCondLabel(p *ssa.Phi, want bool, depth int) (string, bool) {
+	if depth > 3 {
+		return "", false
+	}
+	if b, ok := p.Type().Underlying().(*types.Basic); !ok || b.Kind() != types.Bool {
+		return "", false
+	}
+	var alts []string
+	for i, e := range p.Edges {
+		pred := p.Block().Preds[i]
+		if k, ok := e.(*ssa.Const); ok && k.Value != nil && k.Value.Kind() == constant.Bool {
+			if constant.BoolVal(k.Value) != want {
+				continue // this edge yields the other answer
+			}
+			// the branch that led here
+			iff, ok := blockTerm(pred).(*ssa.If)
+			if !ok {
+				return "", false
+			}
+			truth := pred.Succs[0] == p.Block()
+			if pred.Succs[0] == p.Block() && pred.Succs[1] == p.Block() {
+				return "", false
+			}
+			alts = append(alts, condLabel(iff.Cond, truth))
+			continue
+		}
+		if q, ok := e.(*ssa.Phi); ok {
+			l, ok := phiCondLabel(q, want, depth+1)
+			if !ok {
+				return "", false
+			}
+			alts = append(alts, l)
+			continue
+		}
+		alts = append(alts, condLabel(e, want))
+	}
+	if len(alts) == 0 {
+		return "FALSE", true
+	}
+	alts = uniq(sortStrings(alts))
+	if len(alts) == 1 {
+		return alts[0], true
+	}
+	return "OR(" + strings.Join(alts, ",") + ")", true
 }
 
 // blockTerm returns the last instruction of a block.
@@ -649,4 +711,149 @@ func labelTwin(l string) (string, bool) {
 		return "", false
 	}
 	return op + "(" + args[1] + "," + args[0] + ")", true
+}
+
+// ---- transparent helpers ------------------------------------------------------
+//
+// An unexported function of the module is an implementation detail: extracting a computation into one, or inlining
+// one, does not change behaviour. When such a helper hands back the same expression on every exit that delivers a
+// value, a use of its result is rendered as that expression in the caller's frame (parameters replaced by the
+// arguments), exactly as labels of its gates are substituted into the caller's frame. Boolean results are left to
+// the gate composition (their value is a condition, not an object).
+
+var retExprBusy = map[*ssa.Function]bool{}
+var retExprMemo = map[*ssa.Function]map[int]string{}
+
+func transparentHelper(g *ssa.Function) bool {
+	if g == nil || g.Blocks == nil || g.Pkg == nil || g.Parent() != nil || g.Synthetic != "" {
+		return false
+	}
+	if !strings.HasPrefix(g.Pkg.Pkg.Path(), modPath) || token.IsExported(g.Name()) {
+		return false
+	}
+	return g.TypeParams().Len() == 0
+}
+
+// retTemplate: the expression (in the callee's frame) returned as result k on every value-delivering exit.
+func retTemplate(g *ssa.Function, k int) (string, bool) {
+	if m, ok := retExprMemo[g]; ok {
+		if d, ok := m[k]; ok {
+			return d, d != ""
+		}
+	} else {
+		retExprMemo[g] = map[int]string{}
+	}
+	if retExprBusy[g] {
+		return "", false
+	}
+	retExprBusy[g] = true
+	defer delete(retExprBusy, g)
+	res := g.Signature.Results()
+	if k >= res.Len() {
+		return "", false
+	}
+	if b, ok := res.At(k).Type().Underlying().(*types.Basic); ok && b.Kind() == types.Bool {
+		retExprMemo[g][k] = ""
+		return "", false
+	}
+	errIdx := -1
+	if res.Len() > 0 && isErrorType(res.At(res.Len()-1).Type()) {
+		errIdx = res.Len() - 1
+	}
+	D, n := "", 0
+	okAll := true
+	var first ssa.Value
+	for _, b := range g.Blocks {
+		r, ok := blockTerm(b).(*ssa.Return)
+		if !ok || k >= len(r.Results) {
+			continue
+		}
+		v := spilledRet(r.Results[k])
+		if c, isK := v.(*ssa.Const); isK && errIdx >= 0 && errIdx != k {
+			if !isNilConst(spilledRet(r.Results[errIdx])) && (c.Value == nil || c.Value.ExactString() == `""` || c.Value.ExactString() == "0" || c.Value.ExactString() == "false") {
+				continue // failing exit: zero value next to an error
+			}
+		}
+		d := descDepth(v, 5)
+		if n > 0 && (d != D || (v != first && strings.Contains(d, "alloc:"))) {
+			okAll = false // different expressions, or different objects that merely render alike
+		}
+		if n == 0 {
+			first = v
+		}
+		D = d
+		n++
+	}
+	if !okAll || n == 0 || strings.Contains(D, "…") || len(D) > 600 {
+		retExprMemo[g][k] = ""
+		return "", false
+	}
+	retExprMemo[g][k] = D
+	return D, true
+}
+
+func retExpr(call *ssa.Call, k int, depth int) (string, bool) {
+	g := staticCallee(call)
+	if !transparentHelper(g) {
+		return "", false
+	}
+	D, ok := retTemplate(g, k)
+	if !ok {
+		return "", false
+	}
+	var names, descs []string
+	args := callArgs(call)
+	for i, p := range g.Params {
+		if i < len(args) {
+			names = append(names, p.Name())
+			descs = append(descs, descDepth(args[i], depth))
+		}
+	}
+	return substParams(D, names, descs), true
+}
+
+// res renders result k of a call the way a use of it (an Extract) is rendered, transparent helpers included.
+func res(call *ssa.Call, k int) string {
+	if call == nil {
+		return "?"
+	}
+	tup, isTuple := call.Type().(*types.Tuple)
+	if !isTuple {
+		return desc(call)
+	}
+	if k < tup.Len() && !isErrorType(tup.At(k).Type()) {
+		if s, ok := retExpr(call, k, 6); ok {
+			return s
+		}
+	}
+	if k < tup.Len() && isErrorType(tup.At(k).Type()) {
+		return desc(call) + "#err"
+	}
+	return desc(call) + fmt.Sprintf("#%d", k)
+}
+
+// callForm: how result k of a call of fn with arguments rendered as argDescs is rendered (transparent helpers included).
+func callForm(fn *ssa.Function, k int, argDescs ...string) string {
+	if fn == nil {
+		return "?"
+	}
+	if transparentHelper(fn) {
+		if D, ok := retTemplate(fn, k); ok {
+			var names []string
+			for i, p := range fn.Params {
+				if i < len(argDescs) {
+					names = append(names, p.Name())
+				}
+			}
+			return substParams(D, names, argDescs[:len(names)])
+		}
+	}
+	s := "call:" + fnName(fn) + "(" + strings.Join(argDescs, ",") + ")"
+	if fn.Signature.Results().Len() > 1 {
+		if isErrorType(fn.Signature.Results().At(k).Type()) {
+			return s + "#err"
+		}
+		return s + fmt.Sprintf("#%d", k)
+	}
+	return s
 }
